@@ -113,7 +113,10 @@ static CallResult run_call(NTT_Goldilocks &g, const Cfg &c, bool check_oracle)
     E *out = c.dst == 1 ? other : src;
     switch (c.kind) {
     case K_NTT: g.NTT(dstarg, src, n, ncols, buf, c.nphase, c.nblock); break;
-    case K_INTT: g.INTT(dstarg, src, n, ncols, buf, c.nphase, c.nblock); break;
+    case K_INTT:
+        if ((c.dseed >> 7) & 1) g.INTT(dstarg, src, n, ncols, buf, c.nphase, c.nblock);
+        else g.NTT(dstarg ? dstarg : src, src, n, ncols, buf, c.nphase, c.nblock, true); // the same inverse transform through the public inverse flag
+        break;
     case K_EXT: g.extendPol(out, src, c.next(), n, ncols, buf, c.nphase, c.nblock); break;
     case K_RT_FI: g.NTT(dstarg, src, n, ncols, buf, c.nphase, c.nblock); g.INTT(out, out, n, ncols, buf, c.nphase2, c.nblock2); break;
     case K_RT_IF: g.INTT(dstarg, src, n, ncols, buf, c.nphase, c.nblock); g.NTT(out, out, n, ncols, buf, c.nphase2, c.nblock2); break;
@@ -163,6 +166,8 @@ static void classify(const Cfg &c, Ctx &ctx)
     }
     if (c.dmode == 1) ctx.cls("data:basis"); else ctx.cls("data:mixed-representations");
     if (c.ln != SIZE0 && c.ln > 6) ctx.cls("size:n>64(fft-oracle)"); else ctx.cls("size:n<=64(naive-dft-oracle)");
+    if (c.ln != SIZE0 && c.ln >= 16) ctx.cls("size:n>=2^16");
+    if (c.kind == K_INTT) ctx.cls(((c.dseed >> 7) & 1) ? "intt:via-INTT()" : "intt:via-NTT(inverse=true)");
     ctx.nontrivial = nt;
 }
 
@@ -236,13 +241,15 @@ static rc::Gen<std::vector<uint64_t>> gen_call(int kindsel /* -1 any of 0..4, el
 {
     return rc::gen::exec([=]() {
         int kind = kindsel >= 0 ? kindsel : *g::irange(0, 4);
-        int ln = *rc::gen::weightedOneOf<int>({{6, g::irange(0, 6)}, {3, g::irange(7, maxlg)}});
+        // mostly small, regularly medium, now and then LARGE domains (index arithmetic above 2^16)
+        int ln = *rc::gen::weightedOneOf<int>({{60, g::irange(0, 6)}, {30, g::irange(7, maxlg)}, {maxlg >= 11 ? 1 : 0, g::irange(16, 18)}});
         int lm = *rc::gen::weightedOneOf<int>({{1, rc::gen::just(ln)}, {1, g::irange(ln, std::min(maxlg + 2, ln + 4))}});
         int le = ln;
         if (kind == K_EXT) le = ln + *g::irange(0, 3);
         uint64_t ncols = (uint64_t)*rc::gen::weightedOneOf<int>({{8, g::irange(1, maxcols)}, {1, rc::gen::just(0)}});
         if (kind == K_EXT && ncols == 0) ncols = 1;
         if (ln > 10 && ncols > 4) ncols = 1 + ncols % 4;
+        if (ln > 14) { ncols = 1 + ncols % 2; if (kind == K_EXT) le = ln + (le - ln) % 2; }
         // now and then a WIDE matrix on a small domain (row temporaries, per-row copies and block splitting depend on the column count)
         if (ln <= 4 && *g::irange(0, 19) == 0) ncols = *rc::gen::elementOf(std::vector<uint64_t>{64, 65, 255, 1024, 1025, 1100});
         uint64_t nphase = *rc::gen::weightedOneOf<uint64_t>({{6, rc::gen::elementOf(std::vector<uint64_t>(PHASES, PHASES + 12))}, {1, g::range(0, 20)}, {1, g::uni64()}});
